@@ -18,7 +18,10 @@ import atexit
 import copy
 import datetime
 import decimal
+import fractions
 import itertools
+import math
+import numbers
 import os
 import re
 import shutil
@@ -47,6 +50,15 @@ DOM: dict[str, list] = {
     'timestamp': [TS(2020, 2, 28, 23, 59, 59), TS(2020, 2, 29), TS(2020, 2, 29, 0, 0, 0, 1), TS(2020, 2, 29, 12),
                   TS(2020, 3, 1), TS(2020, 12, 31, 23, 59, 59, 999999), TS(2021, 1, 1)],
 }
+#: the same column kinds at the edges of their representation (pseudo-kinds of the harness: `bigint` is an Integer
+#: ordinal around 2^53 / 10^18 / 2^63 — where a detour through a double would change a bound —, `finefloat` a Float
+#: ordinal of neighbouring doubles that need 17 significant digits when written)
+DOM['bigint'] = [-2 ** 63, -2 ** 53 - 1, 2 ** 53 - 1, 2 ** 53, 2 ** 53 + 1, 10 ** 18 + 1, 2 ** 63 - 1]
+DOM['finefloat'] = [-1e-300, math.nextafter(0.3, -1.0), 0.3, math.nextafter(0.3, 1.0), 1 / 3, 1e15 + 0.125,
+                    1.7976931348623157e308]
+E2E_KINDS = KINDS + ['bigint', 'finefloat']
+#: column kind of a (pseudo-)kind: what the model and forml see
+BASE_KIND = {'bigint': 'integer', 'finefloat': 'float'}
 NPT = 7
 BAD_FORMS = {'badstr', 'badtype'}
 
@@ -143,6 +155,12 @@ def render_tables() -> str:
 def forms(kind: str, pt: int) -> list[str]:
     """Well-formed spellings of domain point `pt` as a bound of an ordinal of `kind`."""
     v = DOM[kind][pt]
+    if kind == 'bigint':
+        # what the interfaces deliver: the CLI a string, code an int / a Decimal (numpy integer scalars: finding C10-F3,
+        # exercised in a process of their own — `_xproc_cases`)
+        return ['native', 'str', 'dec'] + (['plusstr'] if v >= 0 else [])
+    if kind == 'finefloat':
+        return ['native', 'str', 'dec', 'npfloat']
     if kind == 'integer':
         # frac / negfrac / decfrac: the cast *changes the value* (int() truncates towards zero) and lands on the point
         return ['native', 'str', 'float', 'dec'] + (['frac', 'decfrac'] if v >= 0 else []) + (['negfrac'] if v <= 0 else [])
@@ -172,11 +190,17 @@ def value(kind: str, pt: int, form: str):
     if form == 'badstr':
         return 'x1'
     if form == 'badtype':
-        return D(2020, 1, 1) if kind in ('integer', 'float') else True
+        return D(2020, 1, 1) if BASE_KIND.get(kind, kind) in ('integer', 'float') else True
+    if form == 'plusstr':
+        return '+' + str(v)
+    if form in ('npint', 'npfloat'):
+        import numpy
+
+        return numpy.int64(v) if form == 'npint' else numpy.float64(v)
     if form == 'str':
-        if kind == 'integer':
+        if kind in ('integer', 'bigint'):
             return str(v)
-        if kind == 'float':
+        if kind in ('float', 'finefloat'):
             return repr(v)
         return v.isoformat()
     if form == 'str2':
@@ -208,9 +232,9 @@ def value(kind: str, pt: int, form: str):
 def pyclass(v, form: str = 'native') -> str:
     if isinstance(v, bool):
         return 'bool'
-    if isinstance(v, int):
+    if isinstance(v, numbers.Integral):  # int and the numpy integer scalars
         return 'int'
-    if isinstance(v, float):
+    if isinstance(v, float):  # incl. numpy.float64
         return 'float'
     if isinstance(v, decimal.Decimal):
         return 'decimal'
@@ -235,10 +259,11 @@ def raw_sexp(kind: str, b):
 def spec_cast(kind: str, v):
     """A bound *interpreted in the ordinal column's kind* — plain Python conversions written from the meaning of the
     kinds (integer: int(), float: float(), string: str(), date/timestamp: the calendar day / instant), not forml's cast."""
+    kind = BASE_KIND.get(kind, kind)
     if kind == 'integer':
-        return v if isinstance(v, int) else int(v)
+        return spec_int(v)
     if kind == 'float':
-        return v if isinstance(v, (int, float)) else float(v)
+        return spec_float(v)
     if kind == 'string':
         return v if isinstance(v, str) else str(v)
     if isinstance(v, (int, float)) and not isinstance(v, bool):
@@ -252,6 +277,45 @@ def spec_cast(kind: str, v):
     else:
         raise ValueError(f'no {kind} reading of {v!r}')
     return t.date() if kind == 'date' else t
+
+
+_INT_RE = re.compile(r'\s*([+-]?)(\d+(?:_\d+)*)\s*\Z')
+
+
+def spec_int(v) -> int:
+    """The integer a bound denotes — exact arithmetic, written from what the spellings mean: an integer is itself, a
+    decimal string is the sum of its digits times powers of ten (no parser of forml or Python's `int()` involved), a float
+    / Decimal is its exact rational value truncated towards zero."""
+    if isinstance(v, numbers.Integral):
+        return int(v)
+    if isinstance(v, str):
+        m = _INT_RE.match(v)
+        if not m:
+            raise ValueError(f'{v!r} does not write an integer')
+        n = 0
+        for ch in m.group(2).replace('_', ''):
+            n = n * 10 + '0123456789'.index(ch)
+        return -n if m.group(1) == '-' else n
+    q = fractions.Fraction(v)  # exact for float and Decimal; raises for nan / inf
+    return -((-q.numerator) // q.denominator) if q < 0 else q.numerator // q.denominator
+
+
+def spec_float(v) -> float:
+    """The double a bound denotes: a float is itself; anything else denotes an exact rational, read as the double
+    nearest to it (checked against both neighbours, not taken from `float()` on trust)."""
+    if isinstance(v, float):
+        return float(v)
+    if isinstance(v, numbers.Integral):
+        q = fractions.Fraction(int(v))
+    elif isinstance(v, str):
+        q = fractions.Fraction(decimal.Decimal(v.strip().replace('_', '')))
+    else:
+        q = fractions.Fraction(v)
+    r = float(q)  # candidate; verified to be a nearest double
+    for nb in (math.nextafter(r, math.inf), math.nextafter(r, -math.inf)):
+        if math.isfinite(nb) and abs(fractions.Fraction(nb) - q) < abs(fractions.Fraction(r) - q):
+            raise fw.MachineryError(f'spec_float: {r!r} is not the double nearest to {v!r}')
+    return r
 
 
 def bound_value(kind: str, b):
@@ -330,7 +394,7 @@ def dsl_kind(kind: str):
     from forml.io import dsl
 
     return {'integer': dsl.Integer(), 'float': dsl.Float(), 'string': dsl.String(), 'date': dsl.Date(),
-            'timestamp': dsl.Timestamp()}[kind]
+            'timestamp': dsl.Timestamp()}[BASE_KIND.get(kind, kind)]
 
 
 class _EnvBase:
@@ -529,10 +593,12 @@ def _rows_to_ids(rows) -> list[int]:
 
 class C10(fw.Check):
     ID = 'C10'
-    LEAN_MODULES = ['ForML.Props.C10', 'ForML.Lemmas.C10Ship', 'ForML.Lemmas.C10Cache', 'ForML.Lemmas.C10Chain']
+    LEAN_MODULES = ['ForML.Props.C10', 'ForML.Lemmas.C10Ship', 'ForML.Lemmas.C10Cache', 'ForML.Lemmas.C10Chain', 'ForML.Lemmas.C10Int']
     DRIVER = 'drv_c10'
     RULE = ('end-to-end (Source.query -> Feed.load -> extract.Operator -> apply/train driver -> Statement.Prepared -> alchemy '
-            'Parser -> SQLite): ordinal kind {integer,float,string,date,timestamp} x semantic handed over as None / "" / any '
+            'Parser -> SQLite): ordinal kind {integer,float,string,date,timestamp, bigint = Integer ordinal around 2^53/10^18/2^63 '
+            'with bounds as int/str/+str/Decimal, finefloat = Float ordinal of neighbouring 17-digit doubles with bounds as '
+            'float/repr string/Decimal/numpy.float64} x semantic handed over as None / "" / any '
             'alias-table spelling in random case / the enum member x increasing bound subsequence of a 7-point domain with '
             'optional open first/last window (thorough: all 2^7 subsets x 3 semantics x 5 kinds, twice) x every bound in a '
             'random well-formed spelling, each occurrence independently (native, str, float/int, Decimal, date, '
@@ -555,7 +621,9 @@ class C10(fw.Check):
             'and minimised, if necessary together with the earlier launch sequence against the same feed that they depend on. '
             'unit level: Once spellings (incl. a near-miss probe universe), Ordinal construction from every spelling / the '
             'member and its reconstruction by cloudpickle/copy/deepcopy, Extract ordinal/once consistency, kind.cast '
-            'classes, Ordinal.where terms, Prepared.__call__, Runner.train/apply bound passing.')
+            'classes, kind.cast value by value (Integer: ~900 values at the representation edges as int/str/Decimal/float/'
+            'numpy scalars against the exact model and a digit/Fraction oracle; Float: long decimal strings against the '
+            'nearest-double oracle; Date/Timestamp: boundary instants in every carrier type), Ordinal.where terms, Prepared.__call__, Runner.train/apply bound passing.')
     TRUSTED = [
         'that each kind\'s values are linearly ordered the same way by Python (bounds), by SQLite through the SQLAlchemy '
         'column types (stored ordinals) and by the rank in the 7-point domain at which the driver runs the model (the '
@@ -579,6 +647,8 @@ class C10(fw.Check):
         'table names are unique over all databases that share a FORML_HOME (the cache key is the SQL text alone: C06)',
         'an ordinal recorded in a tag is of a type TOML keeps (int, float, str, date, datetime; Decimal as number); a '
         'pandas.Timestamp is written as its repr (tag persistence: C18)',
+        'Integral bounds are Python ints (a numpy.int64 bound is finding C10-F3); tz-aware temporal bounds are covered at '
+        'the cast level only',
         'shipped statements do not select all fields of a Schema.from_fields table whose .schema was computed before '
         '(un-pickling such a statement mutates the shared schema class: a DSL pickling matter, C08)',
     ]
@@ -672,7 +742,7 @@ class C10(fw.Check):
         cases = []
         # corpus: the shapes the statement names explicitly
         full = list(range(NPT))
-        for kind in KINDS:
+        for kind in E2E_KINDS:
             for sem in ('exactly', 'atmost', 'atleast'):
                 cases.append({'kind': kind, 'once': sem, 'ordinal': True, 'open': [True, True],
                               'windows': [[None, [2, 'native']], [[2, 'native'], [4, 'native']], [[4, 'native'], None]],
@@ -723,11 +793,11 @@ class C10(fw.Check):
                                       [[falsy, 'native'], [falsy, 'native']], [[5, 'native'], None], [None, [5, 'native']]],
                           'data': full, 'mode': 'apply'})
         if self.quick:
-            combos = [(rng.choice(KINDS), rng.choice(['exactly', 'atmost', 'atleast']),
+            combos = [(rng.choice(E2E_KINDS), rng.choice(['exactly', 'atmost', 'atleast']),
                        sorted(rng.sample(range(NPT), rng.randint(0, NPT)))) for _ in range(800)]
         else:
             combos = [(k, s, [i for i in range(NPT) if mask >> i & 1])
-                      for k in KINDS for s in ('exactly', 'atmost', 'atleast') for mask in range(2 ** NPT) for _ in (0, 1)]
+                      for k in E2E_KINDS for s in ('exactly', 'atmost', 'atleast') for mask in range(2 ** NPT) for _ in (0, 1)]
         # data sets of the cases that go through the caching feed: a small pool, so that later cases meet the entries that
         # earlier ones left in the caches (same table, same or same-shaped statements)
         pool = [full, full + full] + [self._data() for _ in range(4)]
@@ -751,7 +821,7 @@ class C10(fw.Check):
             cases.append(case)
         # malformed stream: uncastable bounds must be refused with CastError
         for _ in range(self.n(60, 400)):
-            kind = rng.choice([k for k in KINDS if k != 'string'])
+            kind = rng.choice([k for k in E2E_KINDS if k != 'string'])
             bounds = sorted(rng.sample(range(NPT), rng.randint(1, 4)))
             case = {'kind': kind, 'ordinal': True, 'open': [True, True], 'windows': self._windows(kind, bounds, True, True, 0.4),
                     'mode': 'apply', 'malformed': True}
@@ -759,7 +829,7 @@ class C10(fw.Check):
             cases.append(case)
         # no-ordinal stream
         for _ in range(self.n(60, 400)):
-            kind = rng.choice(KINDS)
+            kind = rng.choice(E2E_KINDS)
             bounds = sorted(rng.sample(range(NPT), rng.randint(1, 4)))
             case = {'kind': kind, 'ordinal': False, 'open': [True, True],
                     'windows': self._windows(kind, bounds, True, True) + [[None, None]], 'mode': rng.choice(['apply', 'train'])}
@@ -819,11 +889,11 @@ class C10(fw.Check):
         arg = None if case['once'] is None else ['m', spec_sem(case['once'])] if case.get('member') else ['s', case['once']]
         ships = 1 if case.get('ship') in SHIP_REBUILDS and case['ordinal'] else 0
         if case.get('chain'):
-            return sexp.dumps(['xchain', kind if case['ordinal'] else None, arg, ships, case.get('feed') == 'alchemy',
+            return sexp.dumps(['xchain', BASE_KIND.get(kind, kind) if case['ordinal'] else None, arg, ships, case.get('feed') == 'alchemy',
                                bool(case.get('persist')), raw_sexp(kind, case['tag0']),
                                [raw_sexp(kind, u) for u in case['uppers']], data])
         wins = [[raw_sexp(kind, lo), raw_sexp(kind, hi)] for lo, hi in case['windows']]
-        return sexp.dumps(['xwindows', kind if case['ordinal'] else None, arg, ships, case.get('feed') == 'alchemy', wins, data])
+        return sexp.dumps(['xwindows', BASE_KIND.get(kind, kind) if case['ordinal'] else None, arg, ships, case.get('feed') == 'alchemy', wins, data])
 
     @classmethod
     def _model_answer(cls, case: dict, ans: str):
@@ -1018,7 +1088,8 @@ class C10(fw.Check):
         """Mark a training history as one whose tags go through the registry.  A `pandas.Timestamp` recorded as a tag's
         ordinal is written as its `repr` (toml's fallback for unknown types) and reads back as that string — a matter of
         tag persistence (C18), not of windows: such ordinals are recorded as the plain `datetime` of the same instant."""
-        nat = lambda b: None if b is None else [b[0], 'native' if b[1] == 'pdts' else b[1]]  # noqa: E731
+        # (likewise a numpy.float64: written as 'np.float64(...)')
+        nat = lambda b: None if b is None else [b[0], 'native' if b[1] in ('pdts', 'npfloat') else b[1]]  # noqa: E731
         case.update(persist=True, tag0=nat(case['tag0']), uppers=[nat(u) for u in case['uppers']])
         return case
 
@@ -1027,7 +1098,7 @@ class C10(fw.Check):
         cases = []
         full = list(range(NPT))
         pool = [full, full + full] + [self._data() for _ in range(2)]
-        for kind in KINDS:
+        for kind in E2E_KINDS:
             for sem in ('exactly', 'atmost', 'atleast'):
                 cases.append({'chain': True, 'kind': kind, 'once': sem, 'ordinal': True, 'tag0': None,
                               'uppers': [[1, 'native'], [2, 'native'], [4, 'native'], [5, 'native']], 'data': full + full})
@@ -1039,7 +1110,7 @@ class C10(fw.Check):
                               'uppers': [[1, 'native'], [2, 'native'], [4, 'native'], [5, 'native']], 'data': full})
                 cases.append({'chain': True, 'kind': kind, 'once': sem, 'member': True, 'ordinal': True, 'persist': True,
                               'tag0': [0, 'native'], 'uppers': [[2, 'native'], [3, 'native']], 'data': full})
-            for form in sorted({f for p in range(NPT) for f in forms(kind, p)} - {'native', 'pdts'}):
+            for form in sorted({f for p in range(NPT) for f in forms(kind, p)} - {'native', 'pdts', 'npfloat'}):
                 elig = [p for p in range(NPT) if form in forms(kind, p)]
                 if len(elig) >= 3:
                     cases.append({'chain': True, 'kind': kind, 'once': 'atleast', 'ordinal': True, 'persist': True,
@@ -1052,7 +1123,7 @@ class C10(fw.Check):
                 cases.append({'chain': True, 'kind': kind, 'once': sem, 'ordinal': True, 'tag0': [p, 'native'],
                               'uppers': [[p + 1, 'native'], [p + 3, 'native']], 'data': full})
         for _ in range(self.n(200, 2500)):
-            kind = rng.choice(KINDS)
+            kind = rng.choice(E2E_KINDS)
             pts = sorted(rng.sample(range(NPT), rng.randint(1, 6)))
             bad = 0.3 if rng.random() < 0.08 and bad_forms(kind) else 0.0
 
@@ -1069,7 +1140,7 @@ class C10(fw.Check):
                 self._persisted(case)
             cases.append(case)
         # no ordinal: the very first training (upper bound given) must be refused
-        for kind in KINDS:
+        for kind in E2E_KINDS:
             cases.append({'chain': True, 'kind': kind, 'once': None, 'ordinal': False, 'tag0': None,
                           'uppers': [[falsy.get(kind, 3), 'native'], [5, 'native']], 'data': full})
         return cases
@@ -1509,7 +1580,7 @@ class C10(fw.Check):
             if impl in ('same', 'conv') and not isinstance(r, type(dk).__type__):
                 self.violate(f'{kind}.cast({v!r}) returned {r!r} which is not of the kind\'s type',
                              {'kind': 'cast', 'ordinal_kind': kind, 'value': repr(v)}, 'cast-result-not-in-kind')
-        for kind in KINDS:
+        for kind in E2E_KINDS:
             dk = self.env(kind).dslkind
             # the denotation of every well-formed spelling is the domain point
             for p in range(NPT):
@@ -1522,6 +1593,194 @@ class C10(fw.Check):
                         self.violate(f'{kind}.cast({value(kind, p, form)!r}) = {r!r}, expected {DOM[kind][p]!r}',
                                      {'kind': 'cast', 'ordinal_kind': kind, 'value': repr(value(kind, p, form))},
                                      'cast-changes-value')
+
+    # ---- kind.cast at the level of values: every Python type the interfaces deliver x representation edges ---------
+    INT_EDGES = [0, 1, -1, 7, 2 ** 31, 2 ** 53 - 1, 2 ** 53, 2 ** 53 + 1, 2 ** 53 + 2, 2 ** 53 + 3, -(2 ** 53) - 1, 10 ** 15 + 1,
+                 10 ** 18, 10 ** 18 + 1, -(10 ** 18) - 1, 2 ** 63 - 1, -(2 ** 63), 2 ** 63, 2 ** 63 + 1, -(2 ** 63) - 1, 2 ** 64 + 1,
+                 10 ** 30 + 7, 999999999999999999999]
+
+    @staticmethod
+    def _enc_value(v) -> dict:
+        """JSON-able, exact encoding of a bound value (for witnesses)."""
+        t = type(v)
+        name = t.__name__ if t.__module__ in ('builtins', 'decimal', 'datetime') else f'{t.__module__}.{t.__name__}'
+        if isinstance(v, (datetime.date, datetime.datetime)) and t.__module__ == 'datetime':
+            return {'type': name, 'text': v.isoformat()}
+        return {'type': name, 'text': v if isinstance(v, str) else repr(v) if isinstance(v, float) and t is float else str(v)}
+
+    @staticmethod
+    def _dec_value(e: dict):
+        import numpy
+        import pandas
+
+        t, x = e['type'], e['text']
+        if t == 'str':
+            return x
+        if t in ('int', 'float'):
+            return {'int': int, 'float': float}[t](x)
+        if t == 'bool':
+            return x == 'True'
+        if t == 'Decimal':
+            return DEC(x)
+        if t == 'date':
+            return D.fromisoformat(x)
+        if t == 'datetime':
+            return TS.fromisoformat(x)
+        if t.startswith('numpy.'):
+            return getattr(numpy, t.split('.')[1])(x)
+        if t.endswith('Timestamp'):
+            return pandas.Timestamp(x)
+        raise fw.MachineryError(f'cannot decode {e}')
+
+    def _int_table(self) -> list:
+        """values handed to `Integer.cast`: str (the CLI path), int, Decimal, float, numpy scalars, at the edges"""
+        import numpy
+
+        rng = self.rng
+        ns = list(self.INT_EDGES) + [-n for n in self.INT_EDGES if n > 0]
+        ns += [rng.getrandbits(rng.randint(50, 100)) * rng.choice([1, -1]) for _ in range(self.n(40, 400))]
+        ns += [2 ** 53 + rng.randrange(-50, 50) for _ in range(self.n(20, 200))]
+        out = []
+        for n in ns:
+            out += [n, str(n), DEC(n)]
+            if n >= 0:
+                out.append('+' + str(n))
+            if -2 ** 63 <= n < 2 ** 63:
+                out.append(numpy.int64(n))
+            if float(n) == n and abs(n) < 2 ** 1000:
+                out += [float(n), numpy.float64(n)]
+            out.append(DEC(str(n) + '.5'))
+            if abs(n) < 2 ** 51:
+                out.append(n + 0.5 if n >= 0 else n - 0.5)
+        out += [True, False, '1e6', '10.0', '2.7', '', '-', '+', 'x1', '0x10', '1.5x', ' 12 ', '1_000', '00012', '-0', D(2020, 1, 1),
+                1e300, -2.5, 2.5, DEC('-2.5'), DEC('1E+20'), numpy.float32(3.0), numpy.int32(-5), numpy.uint64(2 ** 63 + 5)]
+        return out
+
+    @staticmethod
+    def _int_model_form(v):
+        """protocol form of a value for the model's `icast`, or None when the model has no word for it (spellings outside
+        the canonical `[+-]?digits`: judged by the oracle only)"""
+        if isinstance(v, numbers.Integral):
+            return ['int', int(v)]
+        if isinstance(v, str):
+            return ['str', v] if re.fullmatch(r'[+-]?\d*', v) or not re.fullmatch(r'\s*[+-]?[\d_]+\s*', v) else None
+        if isinstance(v, (numbers.Real, decimal.Decimal)) and hasattr(v, 'as_integer_ratio'):  # float, Decimal, numpy floats
+            if not math.isfinite(v):
+                return None
+            num, den = v.as_integer_ratio()
+            return ['ratio', int(num), int(den)]
+        return 'other'
+
+    def _run_cast(self, kind: str, v):
+        """-> ('ok', value as forml cast it) | ('error', ExcName)"""
+        try:
+            return ('ok', dsl_kind(kind).cast(v))
+        except Exception as e:  # pylint: disable=broad-except
+            return ('error', exc_name(e))
+
+    def _oracle_castvalue(self, kind: str, v, impl) -> typing.Optional[fw.Violation]:
+        """'Bounds are interpreted in the ordinal column's kind': what the cast hands on denotes the value that was
+        written — the same integer / the nearest double / the same day / the same instant; a spelling that plainly writes a
+        value of the kind is not refused.  Spellings that write no value of the kind may be refused or accepted."""
+        import pandas
+
+        try:
+            if kind == 'integer':
+                want = spec_int(v)
+            elif kind == 'float':
+                want = spec_float(v)
+            else:
+                if isinstance(v, str):
+                    t = TS.fromisoformat(v)
+                elif isinstance(v, datetime.datetime):
+                    t = v.to_pydatetime() if hasattr(v, 'to_pydatetime') else v
+                elif isinstance(v, datetime.date):
+                    t = TS(v.year, v.month, v.day)
+                elif hasattr(v, 'astype'):  # numpy.datetime64
+                    t = TS.fromisoformat(str(v.astype('datetime64[us]')))
+                else:
+                    return None
+                want = t.date() if kind == 'date' else t
+        except fw.MachineryError:
+            raise
+        except Exception:  # pylint: disable=broad-except
+            return None  # the spelling writes no value of the kind: nothing is demanded
+        witness = {'kind': 'castvalue', 'ordinal_kind': kind, 'value': self._enc_value(v)}
+        if impl[0] == 'error':
+            plain = (isinstance(v, str) and re.fullmatch(r'[+-]?\d+', v)) if kind == 'integer' else not isinstance(v, bool)
+            if plain:
+                return fw.Violation(f'{kind}.cast({v!r}) is refused with {impl[1]} although it writes {want!r}', witness,
+                                    f'cast-refuses-valid:{kind}')
+            return None
+        got = impl[1]
+        if kind == 'integer':
+            same = isinstance(got, numbers.Integral) and int(got) == want
+        elif kind == 'float':
+            # an Integral given for a Float ordinal is a Real already: kept exactly, or read as the nearest double
+            exact = fractions.Fraction(int(v)) if isinstance(v, numbers.Integral) else None
+            same = isinstance(got, numbers.Real) and ((fractions.Fraction(got) in (fractions.Fraction(want), exact))
+                                                      if math.isfinite(want) and math.isfinite(got) else float(got) == want)
+        elif kind == 'date':
+            same = (got.date() if isinstance(got, datetime.datetime) else got) == want
+        else:
+            a, b = pandas.Timestamp(got), pandas.Timestamp(want)
+            same = (a == b) if (a.tzinfo is None) == (b.tzinfo is None) else False
+        if same:
+            return None
+        return fw.Violation(f'{kind}.cast({v!r}) = {got!r}, but the bound written is {want!r} (bounds are interpreted in the '
+                            f'ordinal column\'s kind: the value must survive the cast)', witness, f'cast-changes-value:{kind}')
+
+    def _unit_cast_values(self):
+        import numpy
+        import pandas
+
+        table = self._int_table()
+        forms_ = [self._int_model_form(v) for v in table]
+        answers = iter(self.model([sexp.dumps(['icast', f]) for f in forms_ if f is not None]))
+        seen: set = set()
+        for v, form in zip(table, forms_):
+            impl = self._run_cast('integer', v)
+            self.case(('castvalue', 'integer', type(v).__name__, str(v)), 'unit cast-value integer', nontrivial=True)
+            if form is not None:
+                m = sexp.loads(next(answers))
+                mod = ('ok', int(m[1])) if isinstance(m, list) else ('error', m)
+                cmp = ('ok', int(impl[1])) if impl[0] == 'ok' and isinstance(impl[1], numbers.Integral) else impl
+                if cmp != mod:
+                    self.diverge('Integer.cast of a value', {'value': self._enc_value(v)}, repr(impl), repr(mod))
+            viol = self._oracle_castvalue('integer', v, impl)
+            if viol and viol.signature not in seen:
+                seen.add(viol.signature)
+                self.violations.append(viol)
+        # Float: long decimal strings, Decimals, big integers, numpy scalars
+        fl = list(DOM['finefloat']) + [0.1, 0.2, 0.1 + 0.2, 1e22, 1e23, 5e-324, 2.2250738585072014e-308, 123456789.12345678]
+        fl += [self.rng.uniform(-1, 1) * 10 ** self.rng.randint(-20, 20) for _ in range(self.n(30, 300))]
+        ftable: list = []
+        for x in fl:
+            ftable += [x, repr(x), DEC(repr(x)), numpy.float64(x), format(DEC(repr(x)), 'f') if abs(x) > 1e-30 else repr(x)]
+        ftable += ['0.1000000000000000055511151231257827', '9007199254740993', 2 ** 53 + 1, DEC(2 ** 53 + 1), '1e23', '0.30000000000000002',
+                   '1_0.5', ' 2.5 ', numpy.float32(0.1), numpy.int64(3), 3]
+        for v in ftable:
+            impl = self._run_cast('float', v)
+            self.case(('castvalue', 'float', type(v).__name__, str(v)), 'unit cast-value float', nontrivial=True)
+            viol = self._oracle_castvalue('float', v, impl)
+            if viol and viol.signature not in seen:
+                seen.add(viol.signature)
+                self.violations.append(viol)
+        # Date / Timestamp: year boundaries, microseconds, other carriers of the same day / instant
+        stamps = [TS(2020, 12, 31, 23, 59, 59, 999999), TS(2021, 1, 1), TS(2021, 1, 1, 0, 0, 0, 1), TS(1999, 12, 31, 23, 59, 59),
+                  TS(2000, 2, 29, 12), TS(1970, 1, 1), TS(2038, 1, 19, 3, 14, 8), TS(1969, 12, 31, 23, 59, 59, 999999)]
+        for t in stamps:
+            for kind in ('date', 'timestamp'):
+                vs = [t, t.isoformat(), t.isoformat(' '), pandas.Timestamp(t), numpy.datetime64(t), t.date(), t.date().isoformat()]
+                if kind == 'timestamp':
+                    vs += [t.isoformat() + '+01:00', pandas.Timestamp(t, tz='UTC')]
+                for v in vs:
+                    impl = self._run_cast(kind, v)
+                    self.case(('castvalue', kind, type(v).__name__, str(v)), f'unit cast-value {kind}', nontrivial=True)
+                    viol = self._oracle_castvalue(kind, v, impl)
+                    if viol and viol.signature not in seen:
+                        seen.add(viol.signature)
+                        self.violations.append(viol)
 
     _CMP = {'GreaterEqual': 'ge', 'GreaterThan': 'gt', 'LessEqual': 'le', 'LessThan': 'lt', 'Equal': 'eq', 'NotEqual': 'ne'}
 
@@ -1694,19 +1953,25 @@ class C10(fw.Check):
         full = list(range(NPT))
         closed = [[[1, 'native'], [2, 'native']], [[2, 'native'], [4, 'native']], [[4, 'native'], [5, 'native']]]
         cases = []
-        for kind in KINDS:
+        for kind in E2E_KINDS:
             for sem in ('exactly', 'atmost', 'atleast'):
                 cases.append({'kind': kind, 'once': sem, 'ordinal': True, 'open': [False, False], 'feed': 'alchemy',
                               'windows': closed, 'data': full, 'mode': rng.choice(['apply', 'train'])})
         pool = [full + full] + [self._data() for _ in range(2)]
         for _ in range(self.n(25, 150)):
-            kind, sem = rng.choice(KINDS), rng.choice(['exactly', 'atmost', 'atleast'])
+            kind, sem = rng.choice(E2E_KINDS), rng.choice(['exactly', 'atmost', 'atleast'])
             bounds = sorted(rng.sample(range(NPT), rng.randint(1, NPT)))
             open_lo, open_hi = rng.random() < 0.4, rng.random() < 0.4
             case = {'kind': kind, 'ordinal': True, 'open': [open_lo, open_hi], 'mode': rng.choice(['apply', 'train']),
                     'windows': self._windows(kind, bounds, open_lo, open_hi)}
             self._transport(case, sem, pool, p_feed=1.0)
             cases.append(case)
+        # last, because the DSL keeps the first literal of equal value for later statements: an Integral bound that is not a
+        # Python int (numpy.int64), preceded by its sibling with native bounds (C10-F3)
+        for form in ('native', 'npint'):
+            cases.append({'kind': 'bigint', 'once': 'atleast', 'ordinal': True, 'open': [False, False], 'feed': 'alchemy',
+                          'windows': [[[b[0], form] for b in w] for w in closed[:2]], 'data': full, 'mode': 'apply',
+                          'npbounds': form == 'npint'})
         plat = []
         combos = ([('integer', 'at-least-once', False, 'apply'), ('timestamp', 'atmost', True, 'apply')] if self.quick else
                   [(k, o, m, md) for k in ('integer', 'string', 'date') for o, m in (('atleast', False), ('AtMost', False),
@@ -1768,6 +2033,7 @@ class C10(fw.Check):
             return
         answers = self.model([self._model_line(c) for c in x['cases'] + x['platform']])
         reported: set = set()
+        sibling_failed = False
         for n, phase in enumerate(phases):
             runs = list(zip(x['cases'], phase['cases'], answers)) + \
                 list(zip(x['platform'], phase['platform'], answers[len(x['cases']):]))
@@ -1780,9 +2046,18 @@ class C10(fw.Check):
                 self.case(('xproc', n, repr(case)), f"xproc {how} {case['kind']} {spec_sem(case['once'])}",
                           nontrivial=True, sample=None)
                 mod = self._model_answer(case, ans)
+                found = self._oracle_e2e(case, impl)
+                if case.get('npbounds'):
+                    # root cause by construction: the sibling with native int bounds ran just before in the same process
+                    if found and not sibling_failed:
+                        self.violate(f'bounds given as numpy.int64 (an Integral instance: kind.cast returns it as it is) reach '
+                                     f'the database driver unconverted — {found[0][0]}', {'kind': 'xproc', 'case': case, 'phases': 1},
+                                     'integral-bound-not-a-python-int')
+                        continue
+                sibling_failed = bool(found) or impl != mod
                 if impl != mod:
                     self.diverge(f'windows delivered in a process of its own ({how}) differ from the model', case, impl, mod)
-                for what, sig, detail in self._oracle_e2e(case, impl):
+                for what, sig, detail in found:
                     if sig in reported or len(reported) >= 4:
                         continue
                     reported.add(sig)
@@ -1810,6 +2085,7 @@ class C10(fw.Check):
         self._xproc_start()
         self._unit_once()
         self._unit_cast()
+        self._unit_cast_values()
         self._unit_where()
         self._unit_prepared()
         self._unit_train()
@@ -1885,7 +2161,7 @@ class C10(fw.Check):
 
         for seed in seeds:
             for n, (feed, ship, member) in enumerate(transports(seed)):
-                for kind, sem in itertools.product(KINDS, ['exactly', 'atmost', 'atleast', None]):
+                for kind, sem in itertools.product(E2E_KINDS, ['exactly', 'atmost', 'atleast', None]):
                     wins = [[respell(kind, b) for b in w] for w in seed['windows']]
                     variants = [wins] + [wins[:i] + wins[i + 1:] for i in range(len(wins))] if len(wins) > 1 and n == 0 else [wins]
                     for w in variants:
@@ -1895,7 +2171,7 @@ class C10(fw.Check):
                         judge(dress(case, feed, ship, member))
         for seed in chains:
             for n, (feed, ship, member) in enumerate(transports(seed)[:3]):
-                for kind, sem in itertools.product(KINDS, ['exactly', 'atmost', 'atleast', None]):
+                for kind, sem in itertools.product(E2E_KINDS, ['exactly', 'atmost', 'atleast', None]):
                     case = {**seed, 'kind': kind, 'once': sem if seed['ordinal'] else None, 'tag0': respell(kind, seed['tag0']),
                             'uppers': [respell(kind, u) for u in seed['uppers']], 'data': list(range(NPT)), 'base': None}
                     judge(dress(case, feed, ship, member))
@@ -1915,6 +2191,9 @@ class C10(fw.Check):
             if got[1] is not _unj(w['upper']) and got[1] != _unj(w['upper']):
                 return fw.Violation(f"Runner.{w['method']} loaded the feed with upper={got[1]!r}", w, entry.get('signature', ''))
             return None
+        if kind == 'castvalue':
+            v = self._dec_value(w['value'])
+            return self._oracle_castvalue(w['ordinal_kind'], v, self._run_cast(w['ordinal_kind'], v))
         if kind == 'xproc':
             return self._replay_xproc(w)
         if kind == 'reconstruct':
